@@ -20,7 +20,8 @@ def main():
         try:
             k = c[0]
             if k == 'tag_rt':
-                out.append(str(osci.OscInterface._get_timetag(f(c[1]), f(c[2]))))
+                v = osci.OscInterface._get_timetag(f(c[1]), f(c[2]))
+                out.append(str(int(v)) if v == int(v) else 'nonint:%r' % v)
             elif k == 'tag_nrt_out':
                 out.append(str(osci.OscNrtInterface._get_timetag(f(c[1]), f(c[2]))))
             elif k == 'sub':
@@ -30,7 +31,8 @@ def main():
                 except ValueError:
                     out.append(False)
             elif k == 'osc':
-                out.append(str(SystemClock.elapsed_time_to_osc(f(c[1]))))
+                v = SystemClock.elapsed_time_to_osc(f(c[1]))
+                out.append(str(int(v)) if v == int(v) else 'nonint:%r' % v)   # NRT offset is the float 0.0
             elif k == 'back':
                 out.append(str(Fraction(SystemClock.osc_to_elapsed_time(int(c[1])))))
         except Exception as e:
